@@ -288,5 +288,5 @@ def run(ctx):
     L = ctx.pick(3, 4)
     ctx.run_parallel('shard_exhaustive', extra=(L,))
     ctx.exhaustive('every complete text of length ≤ %d over the 26-symbol alphabet (markup alphabet minus `$`) in 3 positions; every such text ≤ 2 as wrap line in 3 abbreviations' % L)
-    ctx.run_parallel('shard_inline', extra=(ctx.pick(300, 10000),))
-    ctx.run_parallel('shard_wrap', extra=(ctx.pick(400, 12000),))
+    ctx.run_parallel('shard_inline', extra=(ctx.pick(300, 4000),))
+    ctx.run_parallel('shard_wrap', extra=(ctx.pick(400, 5000),))
